@@ -228,3 +228,124 @@ Proof.
 Qed.
 
 End FencePipeline.
+
+(* ------------------------------------------------------------------ *)
+(* a document that is one indented code block                             *)
+
+Section IndentedDoc.
+Variable cfg : bcfg.
+Variables (pre : str) (texts : list (list N)) (root : node) (refs : refmap) (fuel : nat).
+
+Hypothesis Hchain : exists rest, bc_chain cfg = R_CODE :: rest.
+Hypothesis Hnest : 0 < bc_maxnest cfg.
+Hypothesis Hpre : forallb is_ws pre = true.
+Hypothesis Hcols : cols_from 0 pre = 4.
+Hypothesis Hfirst : exists T, nth_error texts 0 = Some T /\ blank T = false.
+Hypothesis Hlast : exists T, nth_error texts (length texts - 1) = Some T /\ blank T = false.
+
+Let doc := map (fun T => pre ++ T) texts.
+
+Lemma idoc_nth i T : nth_error texts i = Some T -> nth_error (map mk_line doc) i = Some (mk_line (pre ++ T)).
+Proof. intros H. unfold doc. rewrite map_map. apply (map_nth_error (fun T0 => mk_line (pre ++ T0)) i texts H). Qed.
+
+Lemma idoc_length : length (map mk_line doc) = length texts.
+Proof. unfold doc. rewrite !map_length. reflexivity. Qed.
+
+Theorem indented_block_parse (Hf : (0 < fuel)%nat) :
+  exists rng,
+  block_parse fuel cfg doc root refs = inr (push_child root (mk (KCodeBlock (out_lines false texts ++ [10])) rng []), refs).
+Proof.
+  destruct fuel as [|f]; [lia|]. unfold block_parse. cbv zeta. cbn [btokenize].
+  pose (st0 := BState (map mk_line doc) root 0 0 (length (map mk_line doc)) false None 0 refs).
+  fold st0.
+  assert (Hl0 : b_line st0 = 0%nat) by reflexivity.
+  assert (Hm0 : b_max st0 = length texts) by (unfold st0; cbn [b_max]; apply idoc_length).
+  assert (Hb0 : b_blk st0 = 0) by reflexivity.
+  assert (Hpos : (1 <= length texts)%nat) by (destruct Hfirst as (T & H & _); destruct texts; [discriminate|cbn; lia]).
+  assert (H2 : cols_from 0 pre = 4 + b_blk st0) by (rewrite Hb0, Hcols; reflexivity).
+  assert (H3 : forall i T, nth_error texts i = Some T -> nth_error (b_lines st0) (b_line st0 + i) = Some (mk_line (pre ++ T))).
+  { intros i T Hi. rewrite Hl0. apply idoc_nth. exact Hi. }
+  assert (H6 : forall j, (j < 0)%nat -> is_empty st0 (b_line st0 + length texts + j) = true) by (intros j Hj; lia).
+  assert (H7 : (b_line st0 + length texts + 0 <= b_max st0)%nat) by (rewrite Hl0, Hm0; lia).
+  assert (H8 : (b_line st0 + length texts + 0 = b_max st0)%nat \/
+               exists text f ind, nth_error (b_lines st0) (b_line st0 + length texts + 0) = Some (LRec text f ind) /\
+                                  f < len text /\ (ind - Z.of_N (b_blk st0) < 4)%Z) by (left; rewrite Hl0, Hm0; lia).
+  destruct (code_block_verbatim st0 pre texts 0 Hpre H2 H3 Hfirst Hlast H6 H7 H8) as [rng Hrule].
+  exists rng. unfold Block.tokenize_body. rewrite Hm0, Hl0.
+    replace (length texts - 0)%nat with (length texts) by lia.
+    remember (length texts) as k1 eqn:Ek1.
+    cbn [Block.tok_loop]. rewrite Hl0, Hm0.
+    replace (0 <? k1)%nat with true by (symmetry; apply PeanoNat.Nat.ltb_lt; lia). cbn [negb].
+    destruct Hfirst as (T0 & HT0 & HB0).
+    destruct (mk_line_split pre T0 Hpre) as (w & r & ET0 & Hw & Hr0 & Hrec).
+    assert (Hline0 : nth_error (b_lines st0) 0 = Some (LRec (pre ++ T0) (len (pre ++ w)) (Z.of_N (cols_from 0 (pre ++ w))))).
+    { rewrite <- Hrec. apply idoc_nth. exact HT0. }
+    assert (Hrne : r <> []).
+    { intros ->. rewrite app_nil_r in ET0. subst T0. unfold blank in HB0. congruence. }
+    assert (Hskip : skip_empty_lines st0 0 = 0%nat).
+    { unfold skip_empty_lines. rewrite Hm0. cbn [skip_empty_from]. unfold is_empty. rewrite Hline0. unfold l_end. cbn [l_text l_first].
+      rewrite ET0. destruct r as [|x r']; [congruence|].
+      assert (Hlt : (len (pre ++ w ++ x :: r') <=? len (pre ++ w)) = false).
+      { rewrite app_assoc, (len_app (pre ++ w)). unfold len at 2. cbn [length]. lia. }
+      rewrite Hlt, andb_false_r. reflexivity. }
+    rewrite Hskip. change (set_line st0 0) with st0. rewrite Hm0.
+    replace (k1 <=? 0)%nat with false by (symmetry; apply PeanoNat.Nat.leb_gt; lia).
+    rewrite (line_indent_at _ _ _ _ _ Hline0). cbn [bind ret]. rewrite Hb0.
+    assert (Hge : cols_from 0 pre <= cols_from 0 (pre ++ w)) by (rewrite cols_from_app; pose proof (cols_from_ge (cols_from 0 pre) w); lia).
+    replace (Z.of_N (cols_from 0 (pre ++ w)) - Z.of_N 0 <? 0)%Z with false by lia.
+    change (b_level st0) with 0. replace (bc_maxnest cfg <=? 0) with false by lia.
+    destruct Hchain as [rest E]. rewrite E. cbn [Block.try_rules]. unfold Block.rule_real.
+    change (R_CODE =? R_CODE) with true. cbv iota. rewrite Hrule. cbn [bind ret snd fst b_line set_line push_node set_node].
+    rewrite Hl0. replace (0 <? 0 + k1)%nat with true by (symmetry; apply PeanoNat.Nat.ltb_lt; lia).
+    cbn [bind ret snd fst]. cbn [b_line b_max set_tight push_node set_node set_line]. rewrite Hm0.
+    replace (0 + k1 <? k1)%nat with false by (symmetry; apply PeanoNat.Nat.ltb_ge; lia).
+    cbn [andb]. rewrite tok_loop_done by (cbn [b_line b_max set_tight push_node set_node set_line]; rewrite Hm0; lia).
+    cbn [bind ret b_node b_refs set_tight push_node set_node set_line]. reflexivity.
+Qed.
+
+End IndentedDoc.
+
+Lemma render_root_code_block xhtml rm ra re c rng :
+  render xhtml (Node KRoot rm ra re [mk (KCodeBlock c) rng []]) =
+  inr (replace_nul (bs "<pre><code>" ++ escape_html c ++ bs "</code></pre>" ++ [10]%N)).
+Proof.
+  unfold render. cbn [render_events mk n_kind n_attrs n_children map]. cbn [bind ret app]. rewrite serialize_chunks. f_equal. f_equal.
+  cbn. rewrite <- ?app_assoc. reflexivity.
+Qed.
+
+Section IndentedPipeline.
+Variables (pre : str) (texts : list (list N)) (src : str).
+Hypothesis Hpre : forallb is_ws pre = true.
+Hypothesis Hcols : cols_from 0 pre = 4.
+Hypothesis Hfirst : exists T, nth_error texts 0 = Some T /\ blank T = false.
+Hypothesis Hlast : exists T, nth_error texts (length texts - 1) = Some T /\ blank T = false.
+Hypothesis Hsrc : texts_of src = map (fun T => pre ++ T) texts.
+
+Theorem indented_document_html xhtml :
+  html_of_parse (default_fuel md_cmark) md_cmark xhtml src =
+  inr (replace_nul (bs "<pre><code>" ++ escape_html (out_lines false texts ++ [10]) ++ bs "</code></pre>" ++ [10]%N)).
+Proof.
+  unfold html_of_parse, parse.
+  destruct cmark_inline_ok as [ic Hic].
+  pose proof cmark_core as Hc. pose proof cmark_block as Hb.
+  destruct (r_iter (md_core md_cmark)) as [rc cc]. destruct (r_iter (md_block md_cmark)) as [rb bc].
+  destruct (r_iter (md_inline md_cmark)) as [ri ich]. cbn [snd] in *. subst cc bc ich. cbn [bind ret].
+  rewrite cmark_prefix, cmark_nest.
+  cbn [fold_left]. unfold core_step at 3. cbn [bind ret].
+  change (C_BLOCK =? C_BLOCK) with true. cbv iota.
+  fold (texts_of src). rewrite Hsrc.
+  set (bcf := BCfg _ 100 (bs "language-")).
+  destruct (indented_block_parse bcf pre texts (mk KRoot None []) [] (default_fuel md_cmark)) as [rng Hbp]; try assumption.
+  - eexists. reflexivity.
+  - reflexivity.
+  - vm_compute. lia.
+  - rewrite Hbp. cbn [bind ret fst snd].
+    unfold core_step at 2. cbn [bind ret]. change (C_INLINE =? C_BLOCK) with false. change (C_INLINE =? C_INLINE) with true. cbv iota.
+    cbn [set_children push_child mk n_children app inline_walk n_kind bind ret].
+    unfold core_step. cbn [bind ret]. change (C_FRAGJOIN =? C_BLOCK) with false. change (C_FRAGJOIN =? C_INLINE) with false.
+    change (C_FRAGJOIN =? C_FRAGJOIN) with true. cbv iota.
+    cbn [fj_walk map fragments_join set_children n_children marker_to_text n_kind fj_collapse is_text app d_root].
+    apply render_root_code_block.
+Qed.
+
+End IndentedPipeline.
